@@ -69,6 +69,9 @@ var c19ParserPairs = []c19Pair{
 	{"destination.ReadDestination", "router_identity.ReadRouterIdentity+AsDestination", func(x []byte) bool { return destPermitted(x) && riPermitted(x) }},
 	{"destination.ReadDestination", "destination.NewDestination(ReadKeysAndCert)", destPermitted},
 	{"router_identity.ReadRouterIdentity", "router_identity.NewRouterIdentityFromKeysAndCert(ReadKeysAndCert)", riPermitted},
+	// the assemble-from-parts constructors take a KEY certificate by contract: their domain is KEY-certificate identities
+	{"router_identity.ReadRouterIdentity", "router_identity.NewRouterIdentity(parts of ReadKeysAndCert)", func(x []byte) bool { return riPermitted(x) && len(x) > 384 && x[384] == refmodel.CertKey }},
+	{"keys_and_cert.ReadKeysAndCert", "keys_and_cert.NewKeysAndCert(parts of ReadKeysAndCert)", func(x []byte) bool { return len(x) > 384 && x[384] == refmodel.CertKey }},
 	{"router_identity.ReadRouterIdentity", "router_identity.NewRouterIdentityFromBytes", anyInput},
 	{"lease.ReadLease", "lease.NewLeaseFromBytes", anyInput},
 	{"lease.ReadLease2", "lease.NewLease2FromBytes", anyInput},
